@@ -173,9 +173,19 @@ def async_case(res: Result, spec, idx):
         if not await observe.drain_timed(it, max_steps=20000):
             undrained["n"] += 1
         await it.stop()
-    run_virtual(body)
     wit = {"engine": "async", "producers": nprod, "burst": burst, "accepted": len(accepted),
            "plan": case.plan if len(accepted) < 200 else "(omitted)"}
+    try:
+        run_virtual(body)
+    except observe.VirtualDeadlock:
+        # nothing runnable and nothing scheduled while send()/the run loop are still pending:
+        # producers and consumer wait for each other
+        res.evaluations += 1
+        res.violation("C04:run-loop-and-producers-deadlocked/async",
+                      "the event loop ran dry with %d accepted events: every task (the interpreter's "
+                      "own run loop included) is waiting and no timer is pending" % len(accepted),
+                      dict(wit, accepted=len(accepted)))
+        return
     res.count("async.starts-checked")
     if early["n"]:
         res.violation("C04:event-processed-before-start-settled/async",
